@@ -81,8 +81,11 @@ fn decode(data: &[u8]) -> Option<(usize, Raw, Vec<u8>)> {
         }
         threads.push(ops);
     }
+    // one more byte: a quarter of the inputs use a generator borrowed from another property
+    // (same rule as the proptest drivers, `drive::build_case`)
+    let alt = u.arbitrary::<u8>().unwrap_or(1);
     let rest = u.take_rest().to_vec();
-    Some((pi, Raw { knobs, threads, alt: 1 }, rest))
+    Some((pi, Raw { knobs, threads, alt: alt as _ }, rest))
 }
 
 fuzz_target!(|data: &[u8]| {
@@ -94,7 +97,8 @@ fuzz_target!(|data: &[u8]| {
         }
     }
     let p = props::by_id(PROFILES[pi]).unwrap();
-    let scn = Arc::new((p.build)(&raw, Tier::Quick, true));
+    let (scn, borrowed) = drive::build_case(p, &raw, Tier::Quick);
+    let scn = Arc::new(scn);
     let h = exec::execute(&scn, &exec::Sched::Bytes(sched_bytes.clone()));
     if std::env::var("VERIF_FUZZ_TRACE").is_ok() {
         // debugging aid: dump the decoded case as a replay file for `vsched trace` / `vsched replay`
@@ -111,7 +115,8 @@ fuzz_target!(|data: &[u8]| {
     g.execs += 1;
     match &h.end {
         log::End::Completed => {}
-        log::End::Deadlock(_) if p.liveness => {}
+        // liveness of a borrowed scenario is the lending property's business
+        log::End::Deadlock(_) if p.liveness && borrowed.is_none() => {}
         _ => {
             g.inconclusive += 1;
             return;
